@@ -368,10 +368,14 @@ def run_shard(spec, res):
         path = []
         hot = rng.sample(range(assoc), min(assoc, rng.choice([2, 3, assoc])))
         ok = True
-        for _ in range(300):
+        phased = it % 3 == 0
+        for n_ in range(900 if phased else 300):
             i = rng.choice(hot) if rng.random() < 0.6 else rng.randrange(assoc)
             if rng.random() < 0.2:
                 i = real.get_next_to_replace()  # fill pattern: always access the victim
+            if phased and (n_ % 450) < 400:
+                # hot phase: two or three blocks used in turn for hundreds of accesses, everything else idle
+                i = hot[n_ % min(len(hot), 3)]
             path.append(i)
             real.access(i)
             ref.access(i)
